@@ -125,7 +125,7 @@ def generate():
     MISSES[:] = misses
     t = "From Coq Require Import ZArith List.\nImport ListNotations.\nOpen Scope Z_scope.\n\n"
     t += "(* ConnectionState numbers (reflection) *)\n"
-    for name in ("ACTIVE", "DISCONNECTED_BROKEN_CONN", "NETWORK_CONN_ESTABLISHED", "LOGON_INITIAL_SENT"):
+    for name in ("ACTIVE", "DISCONNECTED_BROKEN_CONN", "NETWORK_CONN_ESTABLISHED", "LOGON_INITIAL_SENT", "RESENDREQ_AWAITING"):
         t += "Definition ST_%s : Z := %d.\n" % (name, int(getattr(ConnectionState, name)))
     t += "\n(* thresholds of heartbeat_timer_task as (mul, add_ms): mul * hb s + add_ms ms  (ast%s) *)\n" % (
         "" if not misses else "; MISSED, defaults kept: " + ", ".join(misses))
